@@ -123,11 +123,14 @@ func buildIncremental(j *Job, timeoutMs int) (string, []*Obligation) {
 }
 
 // buildSingle builds a standalone script for one obligation.
-func buildSingle(j *Job, o *Obligation, timeoutMs int, withModel bool) string {
+func buildSingle(j *Job, o *Obligation, timeoutMs int, withModel bool, extra ...*Term) string {
 	sc := NewScript()
 	sc.Raw(preamble(timeoutMs))
 	for i := 0; i < o.NFact && i < len(j.Facts); i++ {
 		sc.Assert(j.Facts[i])
+	}
+	for _, e := range extra {
+		sc.Assert(e)
 	}
 	sc.Assert(And(o.PC, Not(o.Goal)))
 	sc.Raw("(check-sat)")
@@ -312,7 +315,8 @@ func portfolioScript(j *Job, o *Obligation, script string, cfg SolverCfg) {
 	var outs []string
 	for range solvers {
 		r := <-ch
-		first := strings.SplitN(strings.TrimSpace(r.out), "\n", 2)[0]
+		first, rest0 := solverAnswer(r.out)
+		_ = rest0
 		if first == "unsat" {
 			if o.Kind == "pre-sat" {
 				o.Status = "proved" // precondition unsatisfiable: reported by caller as vacuous
@@ -328,11 +332,7 @@ func portfolioScript(j *Job, o *Obligation, script string, cfg SolverCfg) {
 			o.Status = "failed"
 			o.Solver = r.solver
 			o.Secs = r.secs
-			rest := ""
-			if i := strings.Index(r.out, "\n"); i >= 0 {
-				rest = r.out[i+1:]
-			}
-			o.Output = strings.TrimSpace(rest)
+			o.Output = strings.TrimSpace(rest0)
 			o.Model = parseModel(o.Output)
 			cancel()
 			return
@@ -397,4 +397,37 @@ func conjValues(s string) []bool {
 		}
 	}
 	return out
+}
+
+// solverAnswer finds the check-sat answer in a solver's output (skipping warnings and "unsupported" lines).
+func solverAnswer(out string) (string, string) {
+	lines := strings.Split(out, "\n")
+	for i, l := range lines {
+		t := strings.TrimSpace(l)
+		if t == "sat" || t == "unsat" || t == "unknown" {
+			return t, strings.Join(lines[i+1:], "\n")
+		}
+	}
+	return "", out
+}
+
+// splitScripts: case split over the finite domains recorded for the job (complete because each domain is implied by an assumed type invariant).
+func splitCases(j *Job) [][]*Term {
+	if len(j.Domains) == 0 {
+		return nil
+	}
+	cases := [][]*Term{{}}
+	for _, d := range j.Domains {
+		var nx [][]*Term
+		for _, c := range cases {
+			for _, v := range d.vals {
+				nx = append(nx, append(append([]*Term{}, c...), Eq(d.t, IntLit(v))))
+			}
+		}
+		cases = nx
+		if len(cases) > 64 {
+			return nil
+		}
+	}
+	return cases
 }
